@@ -11,6 +11,7 @@ C07.e  [cmp] a payload-carrying request is never dropped unseen in favour of an 
 Not decided: equality of payload bytes for every value (memberwise copy of a byte array is the language's).
 """
 from lint import facts, records, ir
+from lint.common import AnalysisBroken
 
 LEVEL = 'other'
 
@@ -34,29 +35,29 @@ def ctor_rules(run, F):
                 continue
             pnames = [p['n'] for p in fn.params]
             if 'payload' in pnames:
-                # payload-carrying constructor
-                sets = [i for i in fn.inits if i['t'] == 'member' and i['name'] == 'payloadSet' and i.get('written')]
-                ok_set = bool(sets) and ir.const_val(sets[0]['e']) == 1
-                run.ob('C07.b', '%s(…, payload) sets payloadSet' % fn.short, ok_set, where=fn.pat,
-                       key='%s payload constructor does not set payloadSet' % tk)
-                news = [e for e in ir.all_exprs(fn) if e['k'] == 'new']
-                ok_new = False
-                if len(news) == 1:
-                    init = ir.strip(news[0].get('init'))
-                    # Payload{payload}: an init list / copy construction whose single source is the parameter
-                    srcs = [x for x in ir.walk(init) if x['k'] == 'var' and x.get('vk') == 'param']
-                    tgt = ir.strip(news[0]['place'][0])
-                    ok_new = len(srcs) == 1 and srcs[0]['n'] == 'payload' and ir.pp(tgt) == '&storage'
-                run.ob('C07.b', '%s(…, payload) placement-copies the payload parameter into storage' % fn.short, ok_new,
-                       where=fn.pat, key='%s payload constructor does not copy its payload into storage' % tk)
-                # base gets the id parameters in declaration order
-                base = [i for i in fn.inits if i['t'] == 'base']
+                # payload-carrying constructor, evaluated (member initialisers, base / delegating constructors, the placement-new of the
+                # body) on distinct marker values: whatever the spelling, the object built has payloadSet, holds *the payload argument* in
+                # its storage and each id argument in the member of the same name
+                from lint.cmpdomain import Evaluator, Obj, NotPure
+                from lint.common import AnalysisBroken
+                marks = {}
+                args = []
+                for j, p in enumerate(fn.params):
+                    v = ('payload-argument',) if p['n'] == 'payload' else 100 + j
+                    marks[p['n'].rstrip('_')] = v
+                    args.append(v)
+                try:
+                    obj = Evaluator(F).construct(fn, args, 0)
+                except NotPure as ex:
+                    raise AnalysisBroken('%s is outside the evaluable fragment: %s' % (fn.short, ex))
+                run.ob('C07.b', '%s(…, payload) sets payloadSet' % fn.short, obj.get('payloadSet') in (1, True), where=fn.pat,
+                       detail=repr(obj.get('payloadSet')), key='%s payload constructor does not set payloadSet' % tk)
+                run.ob('C07.b', '%s(…, payload) placement-copies the payload parameter into storage' % fn.short, obj.get('storage') == ('payload-argument',),
+                       where=fn.pat, detail=repr(obj.get('storage')), key='%s payload constructor does not copy its payload into storage' % tk)
                 ids = [p for p in pnames if p != 'payload']
-                ok_base = False
-                if base:
-                    args = [ir.strip(a) for a in ir.strip(base[0]['e']).get('args', [])]
-                    ok_base = [a.get('n') for a in args] == ids
-                run.ob('C07.b', '%s forwards %s to its base in order' % (fn.short, ids), ok_base, where=fn.pat,
+                ok_ids = all(obj.get(n.rstrip('_')) == marks[n.rstrip('_')] for n in ids)
+                run.ob('C07.b', '%s stores %s in the members of the same names' % (fn.short, ids), ok_ids, where=fn.pat,
+                       detail=None if ok_ids else {n: repr(obj.get(n.rstrip('_'))) for n in ids},
                        key='%s payload constructor scrambles its id arguments' % tk)
         for fn in F.find(tk, 'payload'):
             # return payloadSet ? reinterpret_cast<const Payload*>(&storage) : nullptr
@@ -99,28 +100,50 @@ def plan_payload_forwarding(run, F):
     from lint import effects, cfg as cfgmod
     E = effects.Effects(F)
     for fn in F.find('FullControlT', 'updatePlan'):
-        calls = [(e, g) for e, g in E.call_sites(fn) if e.get('m') in ('changeWith', 'changeTo')]
         if (fn.cls or '').rstrip('> ').endswith('void'):
             continue      # void payload specialisation
         c = cfgmod.cfg_of(fn)
+        decls = E.decls(fn)
+        iters = [n for n in c.events(('decl',)) if (n.e.get('ty') or '').endswith('::Iterator') and 'PlanT<' in (n.e.get('ty') or '')]
+        if len(iters) != 1:
+            raise AnalysisBroken('updatePlan: %d plan iterators' % len(iters))
+        it_id = iters[0].e['id']
+
+        def from_task(e, field):
+            """e (after expanding named temporaries) reads `field` / calls `field()` of the task the iterator points at"""
+            x = ir.expand(e, decls)
+            has_it = any(y['k'] == 'var' and y.get('id') == it_id for y in ir.walk(x))
+            has_f = any((y['k'] == 'mem' and y.get('f') == field) or (y['k'] == 'call' and y.get('m') == field) for y in ir.walk(x))
+            return has_it and has_f
+        nodes = c.events(('call',), lambda n: n.e.get('m') in ('changeWith', 'changeTo') and (n.e.get('cls') or '').startswith(('ffsm2::detail::FullControlT<', 'ffsm2::detail::FullControlBaseT<')))
         ok = True
         det = []
-        for e, g in calls:
-            args = [ir.pp(ir.strip(a)) for a in e.get('args', [])]
-            det.append((e.get('m'), args))
-            # every argument is read through the same iterator `it`
-            if not all(a.startswith(('it.', '*it.', '(*it')) or 'it.operator' in a for a in args):
-                ok = False
+        for n in nodes:
+            e = n.e
+            args = e.get('args', [])
+            det.append((e.get('m'), [ir.pp(ir.strip(a)) for a in args]))
             if e.get('m') == 'changeWith':
-                ok = ok and len(args) == 2 and 'destination' in args[0] and 'payload' in args[1]
+                ok = ok and len(args) == 2 and from_task(args[0], 'destination') and from_task(args[1], 'payload')
             else:
-                ok = ok and len(args) == 1 and 'destination' in args[0]
-        # changeWith only when that task's payload() is non-null
-        nodes = c.events(('call',), lambda n: n.e.get('m') in ('changeWith', 'changeTo'))
-        brs = [b for b in c.events(('branch',)) if b.e is not None and 'payload' in ir.pp(b.e)]
+                ok = ok and len(args) == 1 and from_task(args[0], 'destination')
+        # changeWith only when that task's payload() is non-null: a decision on the task's payload pointer (tested directly, through a
+        # condition variable or through a named temporary), whatever its polarity
+        def payload_test(t):
+            t = ir.strip(t)
+            if t['k'] == 'bin' and t['op'] in ('!=', '==') and (ir.strip(t['r'])['k'] == 'null' or ir.const_val(t['r']) == 0):
+                return False      # handled through the aliases: `p != nullptr` has the plain `p` spelling as an alias only when written so
+            return from_task(t, 'payload')
+
+        def payload_nonnull(t):
+            t = ir.strip(t)
+            if t['k'] == 'bin' and t['op'] == '!=' and (ir.strip(t['r'])['k'] == 'null' or ir.const_val(t['r']) == 0):
+                return from_task(t['l'], 'payload')
+            if t['k'] == 'bin' and t['op'] == '!=' and (ir.strip(t['l'])['k'] == 'null' or ir.const_val(t['l']) == 0):
+                return from_task(t['r'], 'payload')
+            return t['k'] != 'bin' and t['k'] != 'un' and from_task(t, 'payload')
+        brs = ir.find_decisions(c, payload_nonnull)
         if len(brs) == 1 and len(nodes) == 2 and sorted(n.e.get('m') for n in nodes) == ['changeTo', 'changeWith']:
-            t = [s2 for s2, lab in brs[0].succ if lab == 'T'][0]
-            f = [s2 for s2, lab in brs[0].succ if lab == 'F'][0]
+            _, t, f = brs[0]
             for n in nodes:
                 if n.e.get('m') == 'changeWith':
                     ok = ok and c.dominates(t, n)
@@ -128,6 +151,7 @@ def plan_payload_forwarding(run, F):
                     ok = ok and c.dominates(f, n)
         else:
             ok = False
+            det.append(('payload tests', len(brs)))
         run.ob('C07.d', 'updatePlan forwards the fired task\'s own destination and payload (changeWith iff it has a payload) [%s]' % F.label(), ok,
                where=fn.pat, detail=None if ok else det, key='updatePlan forwards the wrong destination/payload')
     for fn in F.find('PayloadPlanT', 'append'):
